@@ -239,6 +239,17 @@ def check_kill_on_timeout(ctx: Ctx, oid: str) -> None:
         else:
             if "kill" not in kc:
                 ob.violation(where, fk, "kill() does not kill the gateway's io/process")
+            else:
+                # ... on every path: a kill that is skipped under some condition on the gateway (receiver finished, ...) leaves a
+                # process behind whose connection is gone but whose interpreter still runs
+                kcalls = [c for c in ast.walk(fk.body if isinstance(fk, ast.Lambda) else fk) if isinstance(c, ast.Call) and callee_attr(c) == "kill"]
+                for kc_ in kcalls:
+                    guards_ = [a for a in repo.ancestors(kc_) if isinstance(a, (ast.If, ast.IfExp, ast.While, ast.Try)) and a is not fk and any(x is kc_ for x in ast.walk(a))
+                               and not (isinstance(a, ast.Try) and any(x is kc_ for b in a.body + a.finalbody for x in ast.walk(b)))]
+                    guards_ = [g for g in guards_ if any(g is x for x in ast.walk(fk))]
+                    if guards_:
+                        ob.violation(where, kc_, f"the kill of a member is conditional (`{norm(guards_[0])[:60]}`): when the condition does not hold the member's process is never killed "
+                                                 "although terminate() returns", construct="conditional kill")
             if "join" not in jc or "wait" not in jc:
                 ob.violation(where, fj, "join_wait() does not join the receiver and wait for the process")
         pk = repo.func("gateway_io.Popen2IOMaster.kill")
